@@ -109,7 +109,10 @@ def LEFT(
     https://support.office.com/en-us/article/
         left-leftb-functions-9203d2d2-7960-479b-84c6-1ea52b99640c
     """
-    return str(text)[:int(num_chars)]
+    num_chars = int(num_chars)
+    if num_chars < 0:
+        raise xlerrors.ValueExcelError(f'{num_chars} is < 0')
+    return str(text)[:num_chars]
 
 
 @xl.register()
